@@ -73,7 +73,8 @@ ASSUMPTIONS = [
     'is counted inconclusive and not judged.',
 ]
 
-CMD_OPS = ['hold', 'release', 'trigger', 'set', 'pause', 'resume']
+CMD_OPS = ['hold', 'release', 'trigger', 'set', 'pause', 'resume', 'remove',
+           'remove']
 TAIL_ROUNDS = 8
 FIELDS = ['status', 'flows', 'submit_num', 'held', 'runahead', 'outputs']
 
